@@ -114,12 +114,12 @@ def model_tree(ctx, cases):
              for roots, files in cases]
     res = []
     for b in ctx.model(lines):
-        m = re.fullmatch(r'ok (\d+) (\d+) \[(.*)\] \[(.*)\]', b)
+        m = re.fullmatch(r'ok (\d+) (\d+) \[(.*)\] \[(.*)\] exit=(\d+)', b)
         if not m:
             res.append(None if b == 'out-of-model' else dict(bad=b))
             continue
         svcs = [x.split('=', 1) for x in m.group(3).split(' ') if x]
         errs = [x.split('=', 1) for x in m.group(4).split(' ') if x]
         res.append(dict(load_errors=int(m.group(1)), dropin_errors=int(m.group(2)), services=sorted(canon_text(unhx(t)) for _, t in svcs),
-                        conv_errors=len(errs), by_path={unhx(p): unhx(t) for p, t in svcs}))
+                        conv_errors=len(errs), by_path={unhx(p): unhx(t) for p, t in svcs}, exit=int(m.group(5))))
     return res
